@@ -35,6 +35,16 @@ Locals first bound inside a component (founddtstart … tzname) start at the rec
 UnboundLocalError if one were read earlier (they are read only under `value == comptype` / `elif comptype:`).
 `tzical.__init__` is checked to set `self._vtz = {}` before it calls `_parse_rfc`.
 Anything else raises Untranslatable(<construct>): a broken tie for C17.
+
+Second group (`translate_objects`): the small functions around the parsed zones, into the same generated file —
+  tzical.get / tzical.keys          on `self._vtz` (an insertion-ordered association list `List ICal.VTz`): `len(d)`, `next(iter(d))`
+                                    (first key, StopIteration when empty), `d.get(k)` (None when absent), `list(d.keys())`
+  _tzicalvtzcomp.__init__           a constructor: each `self.a = e` is a field of the record `RfcPy.CompObj`; `datetime.timedelta(seconds=n)`
+                                    = ObjPy.tdOfSeconds (OverflowError beyond the timedelta range)
+  _tzicalvtz.__init__               record `RfcPy.VtzObj` (`super().__init__()` and `_thread.allocate_lock()` are opaque: skipped / unit)
+  tzrangebase.__ne__                `return not (self == other)` over the translated `tzrange.__eq__`
+  tzrangebase.__init__              `raise NotImplementedError(...)`
+  _tzinfo._fold                     `getattr(dt, 'fold', 0)` = the datetime's fold (Python >= 3.6)
 """
 import ast, os, hashlib
 from translate import Untranslatable, find_function
@@ -47,7 +57,9 @@ LOCALS = {"s": "CStr", "lines": "CStrList", "i": "Int", "line": "CStr", "name": 
           "parm": "CStr", "rr": "OptRR", "comp": "Comp", "r": "Int", "msg": "CStr"}
 LEAN_TY = {"CStr": "List Char", "CStrList": "List (List Char)", "Int": "Int", "Bool": "Bool", "OptCStr": "Option (List Char)",
            "OptInt": "Option Int", "OptRR": "Option RfcPy.RR", "RR": "RfcPy.RR", "Comp": "ICal.Comp", "CompList": "List ICal.Comp",
-           "VtzList": "List ICal.VTz", "IntList": "List Int", "Unit": "Unit"}
+           "VtzList": "List ICal.VTz", "IntList": "List Int", "Unit": "Unit", "OptVtz": "Option ICal.VTz", "Vtz": "ICal.VTz",
+           "TD": "Int", "OptRRObj": "Option RfcPy.RR", "KeyList": "List (DtPy.Dt × Int)", "OptZCompList": "List (Option ICal.ZComp)",
+           "Dt": "DtPy.Dt", "Zone": "TzStr.Zone"}
 ELEM = {"CStrList": "CStr", "IntList": "Int", "CompList": "Comp"}
 
 
@@ -89,7 +101,8 @@ class RfcTr:
         if ty == "StrLit" and want == "OptCStr": return "(some %s)" % str_lit(t)
         if ty == "None" and want.startswith("Opt"): return "(none : %s)" % LEAN_TY[want]
         if want == "Opt" + ty: return "(some %s)" % t
-        if ty == "EmptyList" and want in ELEM: return "([] : %s)" % LEAN_TY[want]
+        if ty == "EmptyList" and (want in ELEM or want in ("KeyList", "OptZCompList")): return "([] : %s)" % LEAN_TY[want]
+        if ty == "Bool" and want == "Bool": return t
         raise Untranslatable("%s where %s is expected" % (ty, want))
 
     # ---------------------------------------------------------------- expressions: (binds, term, type)
@@ -109,7 +122,10 @@ class RfcTr:
         if isinstance(e, ast.BinOp) and isinstance(e.op, (ast.Add, ast.Sub)):
             bl, l, tl = self.expr(e.left); br, r, tr = self.expr(e.right)
             if tl == tr == "Int":
-                return bl + br, "(%s %s %s)" % (l, "+" if isinstance(e.op, ast.Add) else "-", r), "Int"
+                return bl + br, "(%s %s %s)" % (l, "+" if isinstance(e.op, ast.Add) else "-", r), tl
+            if tl == tr == "TD":            # timedelta arithmetic: OverflowError when the result leaves the timedelta range
+                n = self.fresh()
+                return bl + br + [(n, "RfcPy.td%s %s %s" % ("Add" if isinstance(e.op, ast.Add) else "Sub", l, r))], n, "TD"
             if isinstance(e.op, ast.Add) and tr == "OptCStr" and tl in ("CStr", "StrLit"):      # str + None: TypeError
                 n = self.fresh()
                 br, r, tr = br + [(n, "RfcPy.needStr %s" % r)], n, "CStr"
@@ -152,6 +168,8 @@ class RfcTr:
         if isinstance(e, ast.Attribute):
             if self.self_attr(e, "_vtz"):
                 return [], self.ref("self__vtz")[0], "VtzList"
+            if self.self_attr(e) and ("self_" + e.attr) in self.types:
+                return [], "self_" + e.attr, self.types["self_" + e.attr]
             b, t, ty = self.expr(e.value)
             if ty == "OptRR" and e.attr in ("_rrule", "_exrule"):      # attribute of a possibly-None rule set: AttributeError
                 n = self.fresh()
@@ -167,7 +185,34 @@ class RfcTr:
         f = e.func
         if isinstance(f, ast.Name) and f.id == "len" and len(e.args) == 1 and not e.keywords:
             b, t, ty = self.expr(e.args[0])
-            if ty in ("CStr", "CStrList"): return b, "((%s).length : Int)" % t, "Int"
+            if ty in ("CStr", "CStrList", "VtzList"): return b, "((%s).length : Int)" % t, "Int"
+        if isinstance(f, ast.Name) and f.id == "next" and len(e.args) == 1 and not e.keywords and isinstance(e.args[0], ast.Call) \
+                and isinstance(e.args[0].func, ast.Name) and e.args[0].func.id == "iter" and len(e.args[0].args) == 1:
+            b, t, ty = self.expr(e.args[0].args[0])
+            if ty == "VtzList":
+                n = self.fresh()
+                return b + [(n, "RfcPy.firstKey %s" % t)], n, "CStr"
+        if isinstance(f, ast.Name) and f.id == "list" and len(e.args) == 1 and not e.keywords and isinstance(e.args[0], ast.Call) \
+                and isinstance(e.args[0].func, ast.Attribute) and e.args[0].func.attr == "keys" and not e.args[0].args:
+            b, t, ty = self.expr(e.args[0].func.value)
+            if ty == "VtzList": return b, "(RfcPy.dictKeys %s)" % t, "CStrList"
+        if isinstance(f, ast.Name) and f.id == "getattr" and len(e.args) == 3 and isinstance(e.args[1], ast.Constant) and e.args[1].value == "fold" \
+                and isinstance(e.args[2], ast.Constant) and e.args[2].value == 0:
+            b, t, ty = self.expr(e.args[0])
+            if ty == "Dt": return b, "(DtPy.foldOf %s)" % t, "Int"          # datetimes always have `fold` (Python >= 3.6)
+        if isinstance(f, ast.Attribute) and isinstance(f.value, ast.Name) and f.value.id == "datetime" and f.attr == "timedelta" \
+                and not e.args and len(e.keywords) == 1 and e.keywords[0].arg == "seconds":
+            b, t, ty = self.expr(e.keywords[0].value)
+            if ty != "Int": raise Untranslatable("timedelta(seconds=%s)" % ty)
+            n = self.fresh()
+            return b + [(n, "ObjPy.tdOfSeconds %s" % t)], n, "TD"
+        if isinstance(f, ast.Attribute) and isinstance(f.value, ast.Name) and f.value.id == "_thread" and f.attr == "allocate_lock" and not e.args:
+            return [], "()", "Unit"
+        if isinstance(f, ast.Attribute) and f.attr == "get" and len(e.args) == 1 and not e.keywords:
+            b, t, ty = self.expr(f.value)
+            if ty == "VtzList":
+                bk, k, tk = self.expr(e.args[0])
+                return b + bk, "(RfcPy.dictGet %s %s)" % (t, self.coerce(k, tk, "OptCStr")), "OptVtz"
         if isinstance(f, ast.Name) and f.id == "_tzicalvtzcomp" and len(e.args) == 5 and not e.keywords:
             binds, args = [], []
             for a, want in zip(e.args, ("OptInt", "OptInt", "Bool", "OptCStr", "OptRR")):
@@ -246,6 +291,9 @@ class RfcTr:
             if sym:
                 bl, l, tl = self.expr(e.left); br, r, tr = self.expr(right)
                 if tl == tr == "Int": return bl + br, "(%s %s %s)" % (l, sym, r)
+                if tl == tr == "Zone" and sym == "=" and getattr(self, "eq_fn", None):       # self == other: the class's translated __eq__
+                    n = self.fresh()
+                    return bl + br + [(n, "%s %s %s" % (self.eq_fn, l, r))], "(%s = true)" % n
                 if sym in ("=", "≠"):
                     if tl == "CStr" and tr in ("StrLit", "CStr"): return bl + br, "(%s %s %s)" % (l, sym, self.coerce(r, tr, "CStr"))
                     if tl == "CStr" and tr == "OptCStr": return bl + br, "((some %s) %s %s)" % (l, sym, r)      # str == None is False
@@ -334,6 +382,24 @@ class RfcTr:
         if isinstance(s, ast.Continue):
             if self.mode != "line" or getattr(self, "in_for", False): raise Untranslatable("continue")
             return "%s.ok st" % pad
+        if isinstance(s, ast.Return) and getattr(self, "ret", None):
+            if s.value is None: raise Untranslatable("bare return")
+            b, t, ty = self.expr(s.value)
+            return self.wrap(b, pad, "%s.ok %s" % (pad, self.coerce(t, ty, self.ret)))
+        if isinstance(s, ast.Expr) and isinstance(s.value, ast.Call) and isinstance(s.value.func, ast.Attribute) and s.value.func.attr == "__init__" \
+                and isinstance(s.value.func.value, ast.Call) and isinstance(s.value.func.value.func, ast.Name) and s.value.func.value.func.id == "super" \
+                and not s.value.args and getattr(self, "ctor", None):
+            return R()           # the base class (_tzinfo / tzinfo) constructor sets no attribute
+        if isinstance(s, ast.Assign) and len(s.targets) == 1 and self.self_attr(s.targets[0]) and getattr(self, "ctor", None):
+            a = s.targets[0].attr
+            if a not in self.ctor: raise Untranslatable("constructor sets self.%s" % a)
+            b, v, ty = self.expr(s.value)
+            want = self.ctor[a]
+            self.types["self_" + a] = want
+            return self.wrap(b, pad, "%slet self_%s : %s := %s\n%s" % (pad, a, LEAN_TY[want], self.coerce(v, ty, want), R()))
+        if isinstance(s, ast.Raise) and isinstance(s.exc, ast.Call) and isinstance(s.exc.func, ast.Name) and s.exc.func.id == "NotImplementedError" \
+                and all(isinstance(a, ast.Constant) for a in s.exc.args):
+            return "%s.error .NotImplemented" % pad
         if isinstance(s, ast.Raise):
             if not (isinstance(s.exc, ast.Call) and isinstance(s.exc.func, ast.Name) and s.exc.func.id == "ValueError" and s.cause is None):
                 raise Untranslatable("raise shape")
@@ -471,10 +537,62 @@ def translate_parse_rfc(tree):
     return "\n".join(out), hashlib.sha256(ast.dump(fn).encode()).hexdigest()[:16]
 
 
+def _fn_text(tree, qual, lean_name, params, ret, doc, self_params=(), ctor=None, ctor_struct=None, eq_fn=None, self_types=None):
+    fn = find_function(tree, qual)
+    formals = [a.arg for a in fn.args.args if a.arg != "self"]
+    if formals != [p for p, _ in params]: raise Untranslatable("signature of %s is %s" % (qual, formals))
+    for d in fn.args.defaults:
+        if not (isinstance(d, ast.Constant) and d.value is None) and not (isinstance(d, ast.List) and not d.elts):
+            raise Untranslatable("default of %s" % qual)
+    tr = RfcTr("plain")
+    tr.types = dict(params)
+    for n, t in (self_types or {}).items(): tr.types[n] = t
+    tr.ret = ret
+    tr.ctor = ctor
+    tr.eq_fn = eq_fn
+    if ctor:
+        k = ".ok { %s }" % ", ".join("%s := self_%s" % (lf, a) for a, lf in ctor_struct)
+        body = tr.block(list(fn.body), k, 1)
+        for a, _ in ctor_struct:
+            if "self_" + a not in tr.types: raise Untranslatable("%s does not set self.%s" % (qual, a))
+    else:
+        body = tr.block(list(fn.body), ".ok ()", 1)
+    args = " ".join(["(%s : %s)" % (n, LEAN_TY[t]) for n, t in self_params] + ["(%s : %s)" % (n, LEAN_TY[t]) for n, t in params])
+    text = "/-- translated from `%s`%s -/\ndef %s %s : Py.R (%s) :=\n%s\n" % (qual, doc, lean_name, args, ret if ret in ("RfcPy.CompObj", "RfcPy.VtzObj") else LEAN_TY[ret], body)
+    return text, hashlib.sha256(ast.dump(fn).encode()).hexdigest()[:16]
+
+
+def translate_objects(tree, common):
+    out, fps = [], {}
+    def add(t, qual, *a, **kw):
+        text, fp = _fn_text(t, qual, *a, **kw)
+        out.append(text); fps[qual] = fp
+    add(tree, "tzical.get", "tzical_get", [("tzid", "OptCStr")], "OptVtz", " (`self._vtz` as the insertion-ordered list of zones)",
+        self_params=[("self__vtz", "VtzList")], self_types={"self__vtz": "VtzList"})
+    add(tree, "tzical.keys", "tzical_keys", [], "CStrList", "", self_params=[("self__vtz", "VtzList")], self_types={"self__vtz": "VtzList"})
+    add(tree, "_tzicalvtzcomp.__init__", "tzicalvtzcomp_init",
+        [("tzoffsetfrom", "Int"), ("tzoffsetto", "Int"), ("isdst", "Bool"), ("tzname", "OptCStr"), ("rrule", "OptRRObj")], "RfcPy.CompObj",
+        ": the component object as the record of the attributes it sets (offsets as timedeltas in microseconds)",
+        ctor={"tzoffsetfrom": "TD", "tzoffsetto": "TD", "tzoffsetdiff": "TD", "isdst": "Bool", "tzname": "OptCStr", "rrule": "OptRRObj"},
+        ctor_struct=[(a, a) for a in ("tzoffsetfrom", "tzoffsetto", "tzoffsetdiff", "isdst", "tzname", "rrule")])
+    add(tree, "_tzicalvtz.__init__", "tzicalvtz_init", [("tzid", "OptCStr"), ("comps", "CompList")], "RfcPy.VtzObj",
+        ": the zone object as the record of the attributes it sets; both cache lists start empty",
+        ctor={"_tzid": "OptCStr", "_comps": "CompList", "_cachedate": "KeyList", "_cachecomp": "OptZCompList", "_cache_lock": "Unit"},
+        ctor_struct=[("_tzid", "tzid"), ("_comps", "comps"), ("_cachedate", "cachedate"), ("_cachecomp", "cachecomp")])
+    add(common, "tzrangebase.__ne__", "tzrange_ne", [("other", "Zone")], "Bool", " over the translated `tzrange.__eq__`",
+        self_params=[("self", "Zone")], eq_fn="tzrange_eq", self_types={"self": "Zone"})
+    add(common, "tzrangebase.__init__", "tzrangebase_init", [], "Unit", " (abstract base class)")
+    add(common, "_tzinfo._fold", "tzinfo_fold", [("dt", "Dt")], "Int", "")
+    return "\n".join(out), fps
+
+
 def translate_files(src_root, groups):
     tree = ast.parse(open(os.path.join(src_root, "tz", "tz.py")).read())
+    common = ast.parse(open(os.path.join(src_root, "tz", "_common.py")).read())
     text, fp = translate_parse_rfc(tree)
-    return text, {"tzical._parse_rfc": fp}
+    text2, fps = translate_objects(tree, common)
+    fps["tzical._parse_rfc"] = fp
+    return text + "\n" + text2, fps
 
 
 RFC_GROUPS = [("tz/tz.py", ["tzical._parse_rfc"])]
